@@ -79,71 +79,88 @@ fn encode_model(this: &Codec, msg: &Packet) -> Result<Bytes> {
 
 const MAXS: usize = 12;
 
-/// Scripted transport: hands out `data[..len]` in the segment sizes given by `mask`
-/// (bit i set = a segment boundary after byte i), optionally fails once before segment
-/// `fail_at`, accepts at most `accept` bytes per write call, and logs what was written.
-#[derive(Debug)]
-struct Script {
-    data: [u8; MAXS],
-    len: usize,
-    pos: usize,
-    mask: u32,
-    fail_at: usize,
-    failed: bool,
-    accept: usize,
-    out: [u8; 32],
-    out_len: usize,
-    write_calls: usize,
-}
+// Scripted transport. All of its state lives in statics and the boxed value is a unit struct:
+// a struct with array fields moved behind `Box<dyn ReadWrite>` makes every field access a
+// byte-extract over a heap object and CBMC does not finish (measured: a single dyn `read`
+// call timed out; with statics it takes about a second).
+static mut S_DATA: [u8; MAXS] = [0; MAXS];
+static mut S_LEN: usize = 0;
+static mut S_POS: usize = 0;
+static mut S_MASK: u32 = 0;
+static mut S_FAIL_AT: usize = usize::MAX;
+static mut S_FAILED: bool = false;
+static mut S_ACCEPT: usize = usize::MAX;
+static mut S_OUT: [u8; 32] = [0; 32];
+static mut S_OUT_LEN: usize = 0;
+static mut S_WRITE_CALLS: usize = 0;
 
-impl Script {
-    fn new(data: [u8; MAXS], len: usize, mask: u32) -> Self {
-        Script { data, len, pos: 0, mask, fail_at: usize::MAX, failed: false, accept: usize::MAX, out: [0; 32], out_len: 0, write_calls: 0 }
+/// Hands out `S_DATA[..S_LEN]` in the segment sizes given by `S_MASK` (bit i set = a segment
+/// boundary after byte i), optionally fails once before byte `S_FAIL_AT`, accepts at most
+/// `S_ACCEPT` bytes per `write` call, and logs what was written.
+#[derive(Debug)]
+struct Script;
+
+fn script_reset(data: [u8; MAXS], len: usize, mask: u32) {
+    unsafe {
+        S_DATA = data;
+        S_LEN = len;
+        S_POS = 0;
+        S_MASK = mask;
+        S_FAIL_AT = usize::MAX;
+        S_FAILED = false;
+        S_ACCEPT = usize::MAX;
+        S_OUT = [0; 32];
+        S_OUT_LEN = 0;
+        S_WRITE_CALLS = 0;
     }
 }
 
 impl Read for Script {
     fn read(&mut self, buf: &mut [u8]) -> std::io::Result<usize> {
-        if self.pos == self.fail_at && !self.failed {
-            self.failed = true;
-            return Err(std::io::Error::from(std::io::ErrorKind::TimedOut));
-        }
-        // next segment: up to and including the next boundary
-        let mut end = self.pos;
-        while end < self.len {
-            end += 1;
-            if end == self.len || (self.mask >> (end - 1)) & 1 == 1 {
-                break;
+        unsafe {
+            if S_POS == S_FAIL_AT && !S_FAILED {
+                S_FAILED = true;
+                return Err(std::io::Error::from(std::io::ErrorKind::TimedOut));
             }
+            // next segment: up to and including the next boundary
+            let mut end = S_POS;
+            while end < S_LEN && end < MAXS {
+                end += 1;
+                if end == S_LEN || (S_MASK >> (end - 1)) & 1 == 1 {
+                    break;
+                }
+            }
+            let mut k = end - S_POS;
+            if k > buf.len() {
+                k = buf.len();
+            }
+            let mut i = 0;
+            while i < k && i < MAXS {
+                buf[i] = S_DATA[S_POS + i];
+                i += 1;
+            }
+            S_POS += k;
+            Ok(k)
         }
-        let mut k = end - self.pos;
-        if k > buf.len() {
-            k = buf.len();
-        }
-        let mut i = 0;
-        while i < k {
-            buf[i] = self.data[self.pos + i];
-            i += 1;
-        }
-        self.pos += k;
-        Ok(k)
     }
 }
 
 impl Write for Script {
     fn write(&mut self, buf: &[u8]) -> std::io::Result<usize> {
-        self.write_calls += 1;
-        let mut k = buf.len();
-        if k > self.accept {
-            k = self.accept;
+        unsafe {
+            S_WRITE_CALLS += 1;
+            let mut k = buf.len();
+            if k > S_ACCEPT {
+                k = S_ACCEPT;
+            }
+            let mut i = 0;
+            while i < k && S_OUT_LEN < 32 {
+                S_OUT[S_OUT_LEN] = buf[i];
+                S_OUT_LEN += 1;
+                i += 1;
+            }
+            Ok(k)
         }
-        let mut i = 0;
-        while i < k && self.out_len < 32 {
-            self.out[self.out_len] = buf[i];
-            self.out_len += 1;
-            i += 1;
-        }
-        Ok(k)
     }
 
     /// std's documented contract of Write::write_all ("continuously calls write until there
@@ -152,14 +169,16 @@ impl Write for Script {
     /// its contract here. A Framed::write that goes through plain `write` still meets the
     /// short-accepting `write` above.
     fn write_all(&mut self, buf: &[u8]) -> std::io::Result<()> {
-        self.write_calls += 1;
-        let mut i = 0;
-        while i < buf.len() && self.out_len < 32 {
-            self.out[self.out_len] = buf[i];
-            self.out_len += 1;
-            i += 1;
+        unsafe {
+            S_WRITE_CALLS += 1;
+            let mut i = 0;
+            while i < buf.len() && S_OUT_LEN < 32 {
+                S_OUT[S_OUT_LEN] = buf[i];
+                S_OUT_LEN += 1;
+                i += 1;
+            }
+            Ok(())
         }
-        Ok(())
     }
 
     fn flush(&mut self) -> std::io::Result<()> {
@@ -167,33 +186,45 @@ impl Write for Script {
     }
 }
 
-/// The written log lives in the boxed transport; the harness keeps a raw pointer to read it
-/// back after the calls (the Framed owns the Box).
-fn framed_over(script: Script, mode: Mode) -> (Framed, *const Script) {
-    let b = Box::new(script);
-    let p: *const Script = &*b;
-    (Framed::new(b, Codec::new(mode)), p)
+fn framed(mode: Mode) -> Framed {
+    Framed::new(Box::new(Script), Codec::new(mode))
 }
 
+fn out_len() -> usize {
+    unsafe { S_OUT_LEN }
+}
+
+fn out_byte(i: usize) -> u8 {
+    unsafe { S_OUT[i] }
+}
+
+fn expect_tiny(r: &Result<Packet>, reqi: u8, none: bool) {
+    match r {
+        Ok(Packet::Tiny(t)) => {
+            assert!(t.reqi.0 == reqi, "frames are delivered in order, one result per frame");
+            assert!(matches!(t.subt, TinyType::None) == none, "the packet is the one carried by that frame");
+        },
+        _ => assert!(false, "a complete frame is delivered as its packet"),
+    }
+}
 
 fn write_two(accept: usize) {
     let r1: u8 = kani::any();
     let r2: u8 = kani::any();
-    let mut s = Script::new([0; MAXS], 0, 0);
-    s.accept = accept;
-    let (mut f, p) = framed_over(s, Mode::Compressed);
+    script_reset([0; MAXS], 0, 0);
+    unsafe {
+        S_ACCEPT = accept;
+    }
+    let mut f = framed(Mode::Compressed);
     let a = f.write(Packet::Tiny(Tiny { reqi: RequestId(r1), subt: TinyType::Ping }));
     assert!(a.is_ok(), "a transport that accepts bytes does not make write fail");
-    let n1 = unsafe { (*p).out_len };
-    assert!(n1 == 4, "the packet reaches the transport as its complete frame, however few bytes are accepted per call");
+    assert!(out_len() == 4, "the packet reaches the transport as its complete frame, however few bytes are accepted per call");
     let b = f.write(Packet::Tiny(Tiny { reqi: RequestId(r2), subt: TinyType::None }));
     assert!(b.is_ok());
-    let n2 = unsafe { (*p).out_len };
-    let out = unsafe { (*p).out };
-    assert!(n2 == 8, "the second packet is appended completely");
-    assert!(out[0] == 1 && out[1] == 3 && out[2] == r1 && out[3] == 3, "first frame contiguous and in order");
-    assert!(out[4] == 1 && out[5] == 3 && out[6] == r2 && out[7] == 0, "second frame after the first, contiguous");
-    kani::cover!(unsafe { (*p).write_calls } >= 1, "transport called");
+    assert!(out_len() == 8, "the second packet is appended completely");
+    assert!(out_byte(0) == 1 && out_byte(1) == 3 && out_byte(2) == r1 && out_byte(3) == 3, "first frame contiguous and in order");
+    assert!(out_byte(4) == 1 && out_byte(5) == 3 && out_byte(6) == r2 && out_byte(7) == 0, "second frame after the first, contiguous");
+    kani::cover!(unsafe { S_WRITE_CALLS } >= 1, "transport called");
     core::mem::forget(a);
     core::mem::forget(b);
     core::mem::forget(f);
